@@ -43,7 +43,7 @@ from mygrad.math.arithmetic.ops import (
     Square,
     Subtract,
 )
-from mygrad.math.misc.ops import MatMul
+from mygrad.math.misc.ops import Abs, MatMul
 from mygrad.math.sequential.ops import (
     CumProd,
     CumSum,
@@ -2089,6 +2089,9 @@ class Tensor:
 
     def __rpow__(self, other: ArrayLike):
         return self._op(Power, other, self)
+
+    def __abs__(self) -> "Tensor":
+        return self._op(Abs, self)
 
     def __neg__(self):
         return self._op(Negative, self)
